@@ -164,6 +164,13 @@ class Models:
                     nm = None
                     if lv[1] == fr.fid and 0 <= lv[2] < len(b["locals"]):
                         nm = b["locals"][lv[2]].get("name")
+                        if isinstance(inner, tuple) and inner[0] == "struct" and not lv[3] and not nm:
+                            # a parser built in place with a struct literal (`Choice { parsers: .. }.go(inp)`): named like the call of its
+                            # constructor function (`choice(..).go(inp)`) - the type's name applied to the field values
+                            head = re.sub(r"<.*", "", b["locals"][lv[2]].get("ty", "")).lstrip("&").split("::")[-1]
+                            if head:
+                                snake = re.sub(r"(?<!^)(?=[A-Z])", "_", head).lower()
+                                return "%s(%s)" % (snake, ",".join(repr_term(term_of(x)) for _, x in inner[1] if _ != "phantom"))
                     return "local:" + (nm or "tmp") + ("." + ".".join(str(x) for x in lv[3]) if lv[3] else "")
             if v[0] == "sym":
                 return self.term_name(v[1])
